@@ -67,12 +67,30 @@ crow!(from_bytes, 4, 0, 1, 2, 3, 4);
 crow!(from_string, 5, 0, 1, 2, 3, 4, 5);
 crow!(finding_bytes_to_string, 4, 5);
 
-harness!(
-    /// mutual compatibility of leaf kinds is symmetric (verdicts only, 36 pairs, no symbolic input)
+/// the real `SchemaCompatibility::mutual_read` in both argument orders (fresh schemas per call)
+fn mutual_leaf<const A: u8, const B: u8>() -> (u8, u8) {
+    fn m(a: &Schema, b: &Schema) -> u8 {
+        addr_reset();
+        match apache_avro::schema_compatibility::SchemaCompatibility::mutual_read(a, b) {
+            Ok(Compatibility::Full) => 2,
+            Ok(Compatibility::Partial) => 1,
+            Err(e) => {
+                leak(e);
+                0
+            }
+        }
+    }
+    let a = reader_schema::<A>();
+    let b = reader_schema::<B>();
+    (m(&a, &b), m(&b, &a))
+}
+
+harness_compat!(
+    /// mutual compatibility of leaf kinds is symmetric: the real `mutual_read(a, b)` against
+    /// `mutual_read(b, a)` (15 unordered pairs, no symbolic input)
     mutual_symmetric, unwind = 8, {
     macro_rules! sym { ($a:literal, $b:literal) => {
-        let ab = verdict::<$a, $b>().min(verdict::<$b, $a>());
-        let ba = verdict::<$b, $a>().min(verdict::<$a, $b>());
+        let (ab, ba) = mutual_leaf::<$a, $b>();
         assert!(ab == ba, "mutual_read is not symmetric");
     }; }
     sym!(0, 1); sym!(0, 2); sym!(0, 3); sym!(0, 4); sym!(0, 5);
@@ -83,6 +101,229 @@ harness!(
     witness!(x == 1, "reachable");
 });
 
+// ---------------------------------------------------------------------------------------------
+// structural kernel: enums and unions, through the memoising `Checker::can_read`
+
+/// schema kinds: 0 enum E{a,b}, 1 enum E{a}, 2 enum E{c}, 3 enum E{a} default a,
+/// 4 union[null, E{a,b}], 5 union[null, E{a}], 6 union[null, long], 7 union[null, int],
+/// 8 long, 9 int, 10 union[null, long, string]
+pub fn enum_of(symbols: Vec<String>, default: Option<String>) -> Schema {
+    // members assigned in place (see schemas::record): CBMC keeps constants for those
+    let mut schema = Schema::Enum(apache_avro::schema::EnumSchema {
+        name: name("E"),
+        aliases: None,
+        doc: None,
+        symbols: Vec::new(),
+        default: None,
+        attributes: apache_avro::vmap::BTreeMap::new(),
+    });
+    if let Schema::Enum(e) = &mut schema {
+        leak(std::mem::replace(&mut e.symbols, symbols));
+        leak(std::mem::replace(&mut e.default, default));
+    }
+    schema
+}
+/// union [null, enum E]: the enum's pointer-carrying members are written in place *inside* the
+/// branch vector (a whole `Schema` moved into a vector loses its constants in symex)
+pub fn union_null_enum(symbols: Vec<String>, default: Option<String>) -> Schema {
+    let mut u = crate::schemas::union(vec![Schema::Null, enum_of(Vec::new(), None)]);
+    if let Schema::Union(us) = &mut u {
+        if let Schema::Enum(e) = &mut us.schemas[1] {
+            leak(std::mem::replace(&mut e.symbols, symbols));
+            leak(std::mem::replace(&mut e.default, default));
+        }
+    }
+    u
+}
+pub fn sch<const K: u8>() -> Schema {
+    use crate::schemas::union;
+    let a = || "a".to_string();
+    match K {
+        0 => enum_of(vec![a(), "b".to_string()], None),
+        1 => enum_of(vec![a()], None),
+        2 => enum_of(vec!["c".to_string()], None),
+        3 => enum_of(vec![a()], Some(a())),
+        4 => union_null_enum(vec![a(), "b".to_string()], None),
+        5 => union_null_enum(vec![a()], None),
+        6 => union(vec![Schema::Null, Schema::Long]),
+        7 => union(vec![Schema::Null, Schema::Int]),
+        8 => Schema::Long,
+        9 => Schema::Int,
+        _ => union(vec![Schema::Null, Schema::Long, Schema::String]),
+    }
+}
+/// number of distinct values (up to the symbolic numeric payload) writable with schema kind K
+const fn nvals(k: u8) -> u8 {
+    match k {
+        0 => 2,
+        4 | 10 => 3,
+        5 | 6 | 7 => 2,
+        _ => 1,
+    }
+}
+/// the J-th value writable with schema kind K (J < nvals(K)); numeric payloads are symbolic.
+/// Returned directly (not through an `Option`): a `Value` holding a `String` that is moved
+/// through a wrapper loses its constant pointer/length in symex.
+fn val<const K: u8, const J: u8>(n: i64) -> Value {
+    // a boxed value that carries a pointer is completed in place, for the same reason
+    fn boxed_enum(i: u32, sym: &str) -> Box<Value> {
+        let mut b = Box::new(Value::Enum(i, String::new()));
+        if let Value::Enum(_, s) = &mut *b {
+            leak(std::mem::replace(s, sym.to_string()));
+        }
+        b
+    }
+    fn boxed_long(n: i64) -> Box<Value> {
+        let mut b = Box::new(Value::Long(0));
+        if let Value::Long(x) = &mut *b {
+            *x = n;
+        }
+        b
+    }
+    fn boxed_string(t: &str) -> Box<Value> {
+        let mut b = Box::new(Value::String(String::new()));
+        if let Value::String(s) = &mut *b {
+            leak(std::mem::replace(s, t.to_string()));
+        }
+        b
+    }
+    match (K, J) {
+        (0, 0) | (1, 0) | (3, 0) => Value::Enum(0, "a".to_string()),
+        (0, 1) => Value::Enum(1, "b".to_string()),
+        (2, 0) => Value::Enum(0, "c".to_string()),
+        (4, 0) | (5, 0) | (6, 0) | (7, 0) | (10, 0) => Value::Union(0, Box::new(Value::Null)),
+        (4, 1) | (5, 1) => Value::Union(1, boxed_enum(0, "a")),
+        (4, 2) => Value::Union(1, boxed_enum(1, "b")),
+        (6, 1) | (10, 1) => Value::Union(1, boxed_long(n)),
+        (7, 1) => Value::Union(1, Box::new(Value::Int(n as i32))),
+        (10, 2) => Value::Union(2, boxed_string("s")),
+        (8, 0) => Value::Long(n),
+        _ => Value::Int(n as i32),
+    }
+}
+fn verdict_s(w: &Schema, r: &Schema) -> u8 {
+    addr_reset();
+    let mut c = Checker::new();
+    let v = match c.can_read(w, r) {
+        Ok(Compatibility::Full) => 2,
+        Ok(Compatibility::Partial) => 1,
+        Err(e) => {
+            leak(e);
+            0
+        }
+    };
+    leak(c);
+    v
+}
+/// does the J-th value of writer kind W resolve under reader schema `r`?  (true when W has no J-th value)
+fn resolves<const W: u8, const J: u8>(r: &Schema, names: &Names, n: i64) -> bool {
+    if J < nvals(W) {
+        let v = val::<W, J>(n);
+        // A union reader is taken apart here the way `Value::resolve_union` does it (unwrap a
+        // written union, select the branch with the real `find_schema_with_known_schemata`,
+        // resolve against that branch): symex does not fold the discriminant of the
+        // `Result<(usize, &Schema), Details>` that `resolve_union` builds with `ok_or_else` when
+        // no branch is found and would continue on a garbage branch pointer.
+        let (v, target) = match r {
+            Schema::Union(u) => {
+                let inner = match v {
+                    Value::Union(_, b) => *b,
+                    other => other,
+                };
+                match u.find_schema_with_known_schemata(&inner, Some(names), None) {
+                    Some((_, branch)) => (inner, branch),
+                    None => {
+                        leak(inner);
+                        return false;
+                    }
+                }
+            }
+            other => (v, other),
+        };
+        match v.resolve_internal(target, names, None, None) {
+            Ok(x) => {
+                leak(x);
+                true
+            }
+            Err(e) => {
+                leak(e);
+                false
+            }
+        }
+    } else {
+        true
+    }
+}
+fn mutual(a: &Schema, b: &Schema) -> u8 {
+    addr_reset();
+    match apache_avro::schema_compatibility::SchemaCompatibility::mutual_read(a, b) {
+        Ok(Compatibility::Full) => 2,
+        Ok(Compatibility::Partial) => 1,
+        Err(e) => {
+            leak(e);
+            0
+        }
+    }
+}
+/// SAFE: the pair differs only by always-safe steps (must not be Err); W == R must be Full.
+/// ALL: every value of W is resolved with a symbolic numeric payload (pairs expected to be
+/// fully readable); otherwise the payload is the fixed witness i64::MAX (pairs with a value that
+/// cannot be read: if it indeed fails to resolve, the verdict must not be Full).
+/// The resolutions are run unconditionally and combined with the verdict afterwards: the
+/// verdict is not a constant for symex (the memo is consulted under a `Result` discriminant
+/// it does not fold), and guarding the resolutions with it would explore them on garbage.
+fn spair<const W: u8, const R: u8, const SAFE: bool, const ALL: bool>(names: &Names, n: i64) {
+    let w = sch::<W>();
+    let r = sch::<R>();
+    // resolutions first: after the checker has run, symex no longer has constants for much of the state
+    let m = if ALL { n } else { i64::MAX };
+    let ok = resolves::<W, 0>(&r, names, m) & resolves::<W, 1>(&r, names, m) & resolves::<W, 2>(&r, names, m);
+    let vd = verdict_s(&w, &r);
+    if SAFE {
+        assert!(vd != 0, "a pair that differs only by an always-safe evolution step is reported incompatible");
+    }
+    if W == R {
+        assert!(vd == 2, "a schema is not fully compatible with itself");
+    }
+    assert!(vd != 2 || ok, "verdict Full, but a value writable with the writer schema fails to resolve with the reader schema");
+    assert!(mutual(&w, &r) == mutual(&r, &w), "mutual_read is not symmetric");
+    leak(w);
+    leak(r);
+}
+
+/// one harness per ordered pair (they run in parallel; a pair costs 30-70 s)
+macro_rules! pair_harness {
+    ($name:ident, $w:literal, $r:literal, $safe:literal, $all:literal, $doc:literal) => {
+        harness_compat!(
+            #[doc = $doc]
+            $name, unwind = 8, {
+            let names = no_names();
+            let n = any_i64();
+            spair::<$w, $r, $safe, $all>(&names, n);
+            witness!(n == i64::MIN, "extreme payload");
+            leak(names);
+        });
+    };
+}
+// enums
+pair_harness!(enum_same, 0, 0, true, true, "enum E{a,b} read as itself");
+pair_harness!(enum_reader_symbol_added, 1, 0, true, true, "E{a} read as E{a,b} (always safe)");
+pair_harness!(enum_reader_symbol_removed, 0, 1, false, false, "E{a,b} read as E{a}: symbol b cannot be read");
+pair_harness!(enum_disjoint, 0, 2, false, false, "E{a,b} read as E{c}");
+pair_harness!(enum_reader_default, 0, 3, false, true, "E{a,b} read as E{a} with default a");
+pair_harness!(enum_disjoint_reader_default, 2, 3, false, true, "E{c} read as E{a} with default a");
+// unions with an enum branch
+pair_harness!(union_enum_same, 4, 4, true, true, "union[null,E{a,b}] read as itself");
+pair_harness!(union_enum_symbol_added, 5, 4, true, true, "union[null,E{a}] read as union[null,E{a,b}] (always safe)");
+pair_harness!(union_enum_symbol_removed, 4, 5, false, false, "union[null,E{a,b}] read as union[null,E{a}]: the enum branch is only partially readable, the verdict must not be Full");
+// unions of leaf kinds
+pair_harness!(union_branch_added, 6, 10, true, true, "union[null,long] read as union[null,long,string] (always safe)");
+pair_harness!(union_branch_removed, 10, 6, false, false, "union[null,long,string] read as union[null,long]: the string branch cannot be read");
+pair_harness!(union_wrap, 8, 6, true, true, "long read as union[null,long] (always safe)");
+pair_harness!(union_unwrap, 6, 8, false, false, "union[null,long] read as long: null cannot be read");
+pair_harness!(union_branch_promoted, 7, 6, true, true, "union[null,int] read as union[null,long] (always safe)");
+pair_harness!(union_wrap_promoted, 9, 6, true, true, "int read as union[null,long] (always safe)");
+
 pub const HARNESSES: &[(&str, fn())] = &[
     ("c09::from_int", from_int::body),
     ("c09::from_long", from_long::body),
@@ -92,4 +333,19 @@ pub const HARNESSES: &[(&str, fn())] = &[
     ("c09::from_string", from_string::body),
     ("c09::finding_bytes_to_string", finding_bytes_to_string::body),
     ("c09::mutual_symmetric", mutual_symmetric::body),
+    ("c09::enum_same", enum_same::body),
+    ("c09::enum_reader_symbol_added", enum_reader_symbol_added::body),
+    ("c09::enum_reader_symbol_removed", enum_reader_symbol_removed::body),
+    ("c09::enum_disjoint", enum_disjoint::body),
+    ("c09::enum_reader_default", enum_reader_default::body),
+    ("c09::enum_disjoint_reader_default", enum_disjoint_reader_default::body),
+    ("c09::union_enum_same", union_enum_same::body),
+    ("c09::union_enum_symbol_added", union_enum_symbol_added::body),
+    ("c09::union_enum_symbol_removed", union_enum_symbol_removed::body),
+    ("c09::union_branch_added", union_branch_added::body),
+    ("c09::union_branch_removed", union_branch_removed::body),
+    ("c09::union_wrap", union_wrap::body),
+    ("c09::union_unwrap", union_unwrap::body),
+    ("c09::union_branch_promoted", union_branch_promoted::body),
+    ("c09::union_wrap_promoted", union_wrap_promoted::body),
 ];
